@@ -122,6 +122,8 @@ class DetGrammar(Grammar, ABC, Generic[U, V, W]):
             args_P = program.arguments
             if function not in self.rules[start]:
                 return False, information, start
+            if len(args_P) != self.arguments_length_for(start, function):  # type: ignore
+                return False, information, start
             information, next = self.derive(information, start, function)  # type: ignore
             for arg in args_P:
                 contained, information, next = self.__contains_rec__(
@@ -132,6 +134,8 @@ class DetGrammar(Grammar, ABC, Generic[U, V, W]):
             return True, information, next
         elif isinstance(program, (Primitive, Variable, Constant)):
             if program not in self.rules[start]:
+                return False, information, start
+            if self.arguments_length_for(start, program) != 0:
                 return False, information, start
             information, next = self.derive(information, start, program)
             return True, information, next
